@@ -1021,9 +1021,20 @@ func cmdReplay(args []string) int {
 		}
 	}
 	name, _ := pkgNameOfDir(repo, h.Dir)
-	api := filepath.Join(workdir, "api.go")
-	os.WriteFile(api, []byte(strings.Replace(apiSrc, "PKGNAME", name, 1)), 0o644)
-	ov[filepath.Join(repo, h.Dir, "zz_verif_api.go")] = api
+	// every entry package of the spec gets the harness API (a spec may share harness files of
+	// other packages, which then have to compile as dependencies of the replayed one)
+	seenDir := map[string]bool{}
+	for i := range spec.Harnesses {
+		d := spec.Harnesses[i].Dir
+		if seenDir[d] {
+			continue
+		}
+		seenDir[d] = true
+		dn, _ := pkgNameOfDir(repo, d)
+		api := filepath.Join(workdir, fmt.Sprintf("api_%d.go", len(seenDir)))
+		os.WriteFile(api, []byte(strings.Replace(apiSrc, "PKGNAME", dn, 1)), 0o644)
+		ov[filepath.Join(repo, d, "zz_verif_api.go")] = api
+	}
 	outs, log, err := runNative(repo, ov, h.Pkg, h.Dir, name, entries, []NativeJob{{h.Entry, r.Candidate.Params, r.Candidate.Vector}}, workdir, 10*time.Minute)
 	if err != nil {
 		fmt.Println("ERROR:", err, log)
